@@ -314,13 +314,18 @@ Proof.
   destruct (bytes_eqb (firstn i kv) k); reflexivity.
 Qed.
 
+Lemma pwd_entry_split : forall cd, split_kv (ts_pwd_prefix ++ cd) = Some (pwd_key, cd).
+Proof.
+  intros cd. pose proof pwd_entry as P. destruct (split_kv_inv _ _ _ P) as [P1 P2].
+  rewrite P1. rewrite <- app_assoc. change ([ts_env_sep] ++ cd) with (ts_env_sep :: cd).
+  apply split_kv_build. exact P2.
+Qed.
+
 Lemma list_get_pwd_entry : forall cd k,
   k <> pwd_key -> list_get [ts_pwd_prefix ++ cd] k = None.
 Proof.
   intros cd k Hk. rewrite list_get_single.
-  assert (H : split_kv (ts_pwd_prefix ++ cd) = Some (pwd_key, cd)).
-  { pose proof pwd_entry as P. destruct (split_kv_inv _ _ _ P) as [P1 P2].
-    rewrite P1 at 1. rewrite <- app_assoc. simpl app. apply split_kv_build. exact P2. }
+  pose proof (pwd_entry_split cd) as H.
   rewrite H. rewrite (bytes_eqb_neq pwd_key k); [reflexivity|]. intros E. apply Hk. symmetry. exact E.
 Qed.
 
@@ -334,9 +339,10 @@ Theorem child_sees_list : forall st cd k l,
   child_lookup k l = list_get (env_list st) k.
 Proof.
   intros st cd k l Hk Hpwd H. unfold child_env, dedup_env in H.
-  destruct (existsb (mem_byte nul_byte) (env_list st ++ [ts_pwd_prefix ++ cd])); [discriminate|].
+  remember (ts_pwd_prefix ++ cd) as e eqn:Ee.
+  destruct (existsb (mem_byte nul_byte) (env_list st ++ [e])); [discriminate|].
   injection H as H. subst l. rewrite (child_lookup_dedup k _ Hk).
-  rewrite <- list_get_rev. rewrite list_get_app.
+  rewrite <- list_get_rev. rewrite list_get_app. subst e.
   rewrite (list_get_pwd_entry cd k Hpwd). reflexivity.
 Qed.
 
@@ -349,17 +355,26 @@ Proof.
   intros st cd k l Hc Hk Hpwd H. rewrite (child_sees_list st cd k l Hk Hpwd H). symmetry. apply Hc.
 Qed.
 
+(* ... in every state a script reaches from its initial variables through env commands *)
+Theorem child_env_agrees_reachable : forall vars cmds cd k l,
+  regular k -> k <> pwd_key ->
+  child_env (fold_left (fun s args => cmd_env args s) cmds (setup_env vars)) cd = Some l ->
+  or_empty (child_lookup k l) = getenv (fold_left (fun s args => cmd_env args s) cmds (setup_env vars)) k.
+Proof.
+  intros vars cmds cd k l Hk Hpwd H.
+  exact (child_env_agrees _ cd k l (reachable_consistent vars cmds) Hk Hpwd H).
+Qed.
+
 (* PWD is the script's current directory *)
 Theorem child_pwd : forall st cd l,
-  regular pwd_key -> child_env st cd = Some l -> child_lookup pwd_key l = Some cd.
+  child_env st cd = Some l -> child_lookup pwd_key l = Some cd.
 Proof.
-  intros st cd l Hk H. unfold child_env, dedup_env in H.
-  destruct (existsb (mem_byte nul_byte) (env_list st ++ [ts_pwd_prefix ++ cd])); [discriminate|].
+  intros st cd l H. assert (Hk : regular pwd_key) by (split; [discriminate|reflexivity]). unfold child_env, dedup_env in H.
+  remember (ts_pwd_prefix ++ cd) as e eqn:Ee.
+  destruct (existsb (mem_byte nul_byte) (env_list st ++ [e])); [discriminate|].
   injection H as H. subst l. rewrite (child_lookup_dedup pwd_key _ Hk).
-  rewrite <- list_get_rev. rewrite list_get_app, list_get_single.
-  assert (Hs : split_kv (ts_pwd_prefix ++ cd) = Some (pwd_key, cd)).
-  { pose proof pwd_entry as P. destruct (split_kv_inv _ _ _ P) as [P1 P2].
-    rewrite P1 at 1. rewrite <- app_assoc. simpl app. apply split_kv_build. exact P2. }
+  rewrite <- list_get_rev. rewrite list_get_app, list_get_single. subst e.
+  pose proof (pwd_entry_split cd) as Hs.
   rewrite Hs, bytes_eqb_refl. reflexivity.
 Qed.
 
@@ -390,3 +405,49 @@ Proof.
       * apply in_or_app. right. left. reflexivity.
       * apply in_or_app. right. exact Hn.
 Qed.
+
+(* ------------------------------------------------------------------ examples (non-vacuity) *)
+
+From Coq Require Import String.
+
+Definition ex_vars : list (list byte) :=
+  [bs "WORK=/w"%string; bs "PATH=/bin"%string; bs "novalue"%string; bs "A=first"%string; bs "PATH=/helper:/bin"%string].
+Definition ex_st : ts_env :=
+  fold_left (fun s args => cmd_env args s)
+    [[bs "A=x y"%string; bs "B=1"%string]; [bs "A"%string]; [bs "A=two=2 #"%string; bs "PWD=/elsewhere"%string]; [bs "=odd"%string]]
+    (setup_env ex_vars).
+
+Example latest_wins_ex :
+  no_sep (bs "A"%string) /\
+  Forall (not_assign (bs "A"%string)) [bs "PWD=/elsewhere"%string; bs "=odd"%string; bs "A"%string] /\
+  getenv ex_st (bs "A"%string) = bs "two=2 #"%string /\
+  getenv ex_st (bs "PATH"%string) = bs "/helper:/bin"%string /\
+  getenv ex_st (bs "novalue"%string) = [].
+Proof.
+  split; [reflexivity|]. split; [|vm_compute; repeat split].
+  repeat constructor; intros k' v' H; vm_compute in H; try discriminate H;
+    injection H as H1 H2; subst; discriminate.
+Qed.
+
+Example child_env_agrees_ex :
+  consistent ex_st /\ regular (bs "A"%string) /\ bs "A"%string <> pwd_key /\
+  child_env ex_st (bs "/w"%string)
+  = Some [bs "WORK=/w"%string; bs "novalue"%string; bs "PATH=/helper:/bin"%string; bs "B=1"%string;
+          bs "A=two=2 #"%string; bs "=odd"%string; bs "PWD=/w"%string] /\
+  getenv ex_st (bs "PWD"%string) = bs "/elsewhere"%string.
+Proof.
+  split; [apply reachable_consistent|]. split; [split; [discriminate|reflexivity]|].
+  split; [discriminate|]. vm_compute. split; reflexivity.
+Qed.
+
+(* a NUL byte anywhere in the list: the child is not started *)
+Example child_env_nul_ex : child_env (cmd_env [[x41; x3d; x00]] (setup_env [])) (bs "/w"%string) = None.
+Proof. reflexivity. Qed.
+
+(* ts.Setenv with "=" in the key (not reachable through the env command) breaks the agreement:
+   the hypothesis [consistent] of child_env_agrees is not vacuous *)
+Example inconsistent_ex :
+  let st := setenv (bs "a=b"%string) (bs "c"%string) (cmd_env [bs "a=old"%string] (setup_env [])) in
+  getenv st (bs "a"%string) = bs "old"%string /\
+  list_get (env_list st) (bs "a"%string) = Some (bs "b=c"%string).
+Proof. vm_compute. split; reflexivity. Qed.
